@@ -12,6 +12,7 @@ fn h<T: Hash>(t: &T) -> u64 {
 
 pub fn run(_params: &[i64], ops: &Rows, mon: &mut Mon) -> Rows {
     let mut out = Vec::new();
+    let mut kept: Vec<(ReprCString, Vec<u8>)> = Vec::new();
     for (k, op) in ops.iter().enumerate() {
         let kind = op[0];
         let input: Vec<u8> = op[1..].iter().map(|b| *b as u8).collect();
@@ -43,7 +44,7 @@ pub fn run(_params: &[i64], ops: &Rows, mon: &mut Mon) -> Rows {
                 let n1 = s.len() as i64 + 1;
                 let n2 = s2.len() as i64 + 1;
                 drop(c);
-                drop(c2);
+                if kept.len() < 16 { kept.push((c2, expect.clone())); } else { drop(c2); }
                 let mut r = vec![1, 0, n1, n2, (s == s2) as i64, s.len() as i64];
                 r.extend(s.iter().map(|b| *b as i64));
                 r
@@ -62,5 +63,13 @@ pub fn run(_params: &[i64], ops: &Rows, mon: &mut Mon) -> Rows {
         };
         out.push(row);
     }
+    // every pair of strings of the case (both orders): equal exactly when their contents are, and equal strings hash equal
+    for i in 0..kept.len() { for j in 0..kept.len() {
+        let (a, b) = (&kept[i], &kept[j]);
+        let want = a.1 == b.1;
+        if (a.0 == b.0) != want || (a.0 != b.0) == want { mon.fail(format!("strings {} and {} ({:?} vs {:?}): == is {} but their contents are {}", i, j, a.1, b.1, a.0 == b.0, if want { "equal" } else { "different" })); }
+        if want && h(&a.0) != h(&b.0) { mon.fail(format!("strings {} and {} have equal contents but different hashes", i, j)); }
+    } }
+    drop(kept);
     out
 }
